@@ -131,6 +131,7 @@ pub fn spec() -> Spec {
         counters: no_counters,
         signature: no_sig,
         slice: false,
+        obs: false,
         also_check: false,
     }
 }
